@@ -143,6 +143,18 @@ def run_cmp(case, ctx):
         forms = cross_forms + [("scalar", case["scalar"], [case["scalar"]] * len(a)), ("self", va, a)]
         if k == "date" and any(x is not None for x in a):
             forms.append(("iso-string", case["iso"], [case["iso"]] * len(a)))
+        if k == "date" and a:
+            # a vector of ISO texts with holes: None on either side compares False, and no comparison raises
+            texts = [None if (i % 2 == 0 or x is None) and i % 3 != 1 else (x or case["scalar"]).isoformat() for i, x in enumerate(a)]
+            if any(tx is not None for tx in texts):
+                ctx.ev()
+                try:
+                    got_ = list(op(va, S.Vector(list(texts))))
+                except Exception as e:  # noqa: BLE001
+                    return ctx.fail(f"compare/iso-text-vector/raised/{type(e).__name__}", f"{a} {name} {texts}: {e}")
+                bad_ = [i for i, (x, tx) in enumerate(zip(a, texts)) if (x is None or tx is None) and got_[i] is not False]
+                if bad_:
+                    return ctx.fail("compare/iso-text-vector/none-not-false", f"{a} {name} {texts}: position {bad_[0]} is {got_[bad_[0]]!r}")
         if k == "date":
             # text that is no ISO date: serif may refuse the comparison; whatever it returns, None positions compare False
             for txt in ("n/a", "", "01/06/2021"):
